@@ -530,6 +530,69 @@ def _delivery_key(got, want):
     return "delivery-missing"
 
 
+class _BlocksInsideTagify:
+    """A component whose tagify() builds its result with `with` blocks (the Shiny Express style), nested `depth` deep."""
+
+    def __init__(self, depth):
+        self.depth = depth
+        self.made = []
+
+    def tagify(self):
+        def block(d):
+            t = ht.Tag("x-level%d" % d)
+            with t:
+                sys.displayhook("before%d" % d)
+                if d > 1:
+                    block(d - 1)
+                sys.displayhook("after%d" % d)
+            return t
+
+        t = block(self.depth)
+        self.made.append(t)
+        return t
+
+
+def run_blocks_inside_tagify(ctx, rng):
+    """`with` blocks that run while a tree is being expanded / rendered obey the same rules: every finished block's tag is handed,
+    once, to the hook that was installed when it was entered (the enclosing block's, or whatever hook was active), and the hook
+    is restored."""
+    depth = rng.choice([1, 2, 3])
+    comp = _BlocksInsideTagify(depth)
+    via = rng.choice(["Tag.render", "TagList.tagify", "HTMLDocument.render", "str", "direct"])
+    rec = Recorder()
+    real = sys.displayhook
+    sys.displayhook = rec
+    try:
+        if via == "Tag.render":
+            out = ht.div("lead", comp).render()["html"]
+        elif via == "TagList.tagify":
+            out = ht.TagList(comp, "tail").tagify().get_html_string()
+        elif via == "HTMLDocument.render":
+            out = ht.HTMLDocument(ht.div(comp)).render()["html"]
+        elif via == "str":
+            out = str(ht.span(comp))
+        else:
+            out = comp.tagify().get_html_string()
+        hook_after = sys.displayhook
+    finally:
+        sys.displayhook = real
+    ctx.count("monitor.blocks_inside_tagify")
+    wit = {"scenario": "with blocks inside tagify()", "depth": depth, "via": via, "output": out[:600]}
+    if hook_after is not rec:
+        ctx.violation("hook-not-restored", "after an expansion that used with-blocks sys.displayhook is not the hook that was installed before", wit)
+        return False
+    for d in range(1, depth + 1):
+        if out.count("<x-level%d>" % d) != 1 or ("before%d" % d) not in out or ("after%d" % d) not in out:
+            ctx.violation("block-children-differ", "the tag of a block that ran inside tagify() (level %d of %d) is missing from the expansion or incomplete" % (d, depth), wit)
+            return False
+    outer = comp.made[-1]
+    if len(comp.made) != 1 or [x for x in rec.delivered if x is outer] != [outer] or any(isinstance(x, ht.Tag) and x is not outer for x in rec.delivered):
+        ctx.violation("delivery-missing", "the outermost block's tag was not handed exactly once to the hook that was active when tagify() ran (inner blocks' tags go to their parents)",
+                      dict(wit, delivered=[repr(x)[:40] for x in rec.delivered]))
+        return False
+    return True
+
+
 def run_default_hook_case(ctx, n_blocks, rng):
     """Top-level blocks under the interpreter's own sys.__displayhook__: each tag must be handed to it (echoed, builtins._)."""
     import builtins
@@ -689,6 +752,7 @@ def run(ctx):
     for _ in range(ctx.budget(40, 4000)):
         ctx.guard(run_default_hook_case, ctx, rng.randint(1, 3), rng, witness={"what": "default hook"})
         ctx.guard(run_copy_case, ctx, rng, witness={"what": "block on a copy of a finished tag"})
+        ctx.guard(run_blocks_inside_tagify, ctx, rng, witness={"what": "with blocks inside tagify()"})
     ctx.count("skeletons", skel)
     ctx.exhaustive["every_statement_position_of_every_generated_skeleton"] = True
     ctx.sample({"program": fixed[0], "inject_at": 2})
